@@ -17,7 +17,7 @@ func verifLoopStep(id string) (*vSub, workflow.VerifStep) {
 	sub := &vSub{gate: make(chan struct{})}
 	close(sub.gate) // items answer at once
 	var rn step.RunnableStep = &runnableStep{workflow: sub, logger: vLogger{}}
-	return sub, workflow.VerifStep{ID: id, Runnable: rn, RunData: nil,
+	return sub, workflow.VerifStep{ID: id, Provider: &forEachProvider{logger: vLogger{}}, Runnable: rn,
 		Fields: map[string]any{"items": workflow.VerifExpr("input")}}
 }
 
@@ -65,7 +65,7 @@ func VerifH_C09_real_foreach() {
 	sub := &vSub{gate: make(chan struct{}), outcome: []int{0}}
 	close(sub.gate)
 	var rn step.RunnableStep = &runnableStep{workflow: sub, logger: vLogger{}}
-	p := workflow.VerifPrepareSteps([]workflow.VerifStep{{ID: "l1", Runnable: rn, Fields: map[string]any{"items": workflow.VerifExpr("input")}}},
+	p := workflow.VerifPrepareSteps([]workflow.VerifStep{{ID: "l1", Provider: &forEachProvider{logger: vLogger{}}, Runnable: rn, Fields: map[string]any{"items": workflow.VerifExpr("input")}}},
 		map[string]any{"success": map[any]any{"a": workflow.VerifExpr("steps", "l1", "outputs", "success", "data")}})
 	res := workflow.VerifRun(p, any([]any{verifrt.NondetVal("item")}))
 	verifrt.Assert(!res.Stuck, "the run returns")
